@@ -4,6 +4,7 @@ import (
 	"bytes"
 	"encoding/hex"
 	"fmt"
+	"io"
 	"math/rand"
 
 	biscuit "github.com/biscuit-auth/biscuit-go/v2"
@@ -201,7 +202,7 @@ type Family struct {
 	Tokens []*Live
 	Ops    []string
 	nextEv int
-	rng    *lib.DetRand
+	rng    io.Reader
 	shared []string
 }
 
